@@ -72,6 +72,10 @@ Inductive c16_case :=
 | CRound (bs : list blk) (encs : list (option str)) (flen fsum : N) (wok : bool) (wpanic : bool)
          (o_ct : option str) (o_blks : list (option blk)) (o_end : oend)
          (o_metas : list (option bmeta)) (o_mend : oend)
+  (* one writer used for every block, errors or not: per-call results, the file, the blocks read
+     back (None = identical to the accepted block at that position) *)
+| CRetry (bs : list blk) (encs : list (option str)) (flen fsum : N) (oks : list bool) (wpanic : bool)
+         (o_ct : option str) (o_blks : list (option blk)) (o_end : oend)
   (* content type, messages, length and weighted sum of the file as written, input blocks, clean
      read (None = identical to the input block at that position); faults *)
 | CFault (ct : str) (ms : list str) (flen fsum : N) (orig : list blk) (clean : list (option blk))
@@ -153,6 +157,13 @@ Definition blk_same (orig got : blk) : bool :=
   (b_num orig =? b_num got) && eqb_list (b_id orig) (b_id got) &&
   eqb_list (b_parent orig) (b_parent got) && ts_eqb (b_ts orig) (b_ts got) &&
   (b_lib orig =? b_lib got) &&
+  (* the parent number: unchanged, or for a legacy block above the first streamable block the
+     designed back-fill number - 1 *)
+  ((b_pnum got =? b_pnum orig) ||
+   match b_payload orig with
+   | None => (first_block <? b_num orig) && (b_pnum got =? b_num orig - 1)
+   | Some _ => false
+   end) &&
   match b_payload orig, b_payload got with
   | Some a, Some g => any_eqb a g
   | None, Some g => eqb_list (b_pbuf orig) (a_val g)
@@ -209,6 +220,30 @@ Definition round_verdict bs encs (flen fsum : N) wok wpanic o_ct o_blks_c o_end 
      URL, every block marshals to a non-empty message) *)
   let inq := wok && negb (match bs with [] => true | _ => false end) && all_some_nonempty encs in
   let p := negb inq || round_ok bs o_blks o_end in
+  (if m then 0 else 1) + (if p then 0 else 2).
+
+(* every block whose Write returned nil is read back, in order, whatever the other calls returned *)
+Fixpoint keep {A} (l : list A) (oks : list bool) : list A :=
+  match l, oks with
+  | x :: r, true :: o => x :: keep r o
+  | _ :: r, false :: o => keep r o
+  | _, _ => []
+  end.
+
+Definition retry_verdict bs encs (flen fsum : N) (oks : list bool) wpanic o_ct o_blks_c o_end : N :=
+  if wpanic || oend_crashed o_end then 4 else
+  let penc := enc_lookup bs encs in
+  let '(st, moks) := write_cont penc (mkW false []) bs in
+  let file := w_out st in
+  let accepted := keep bs oks in
+  let o_blks := resolve accepted o_blks_c in
+  let wr := (lenN file =? flen) && (wsum file =? fsum) && list_eqb Bool.eqb moks oks in
+  let '(mh, mbl, mo) := read_file (model_dec_block bs encs) file in
+  let rd := ostr_eqb (option_map h_ctype mh) o_ct && list_eqb blk_eqb mbl o_blks && oend_matches o_end mo &&
+            resolved_ok accepted o_blks_c in
+  let m := wr && rd in
+  let inq := negb (match accepted with [] => true | _ => false end) && all_some_nonempty (keep encs oks) in
+  let p := negb inq || round_ok accepted o_blks o_end in
   (if m then 0 else 1) + (if p then 0 else 2).
 
 (* ------------------------------------------------------------------ faults *)
@@ -464,6 +499,8 @@ Definition c16_verdict (k : c16_case) : N :=
   match k with
   | CRound bs encs flen fsum wok wpanic o_ct o_blks o_end o_metas o_mend =>
       round_verdict bs encs flen fsum wok wpanic o_ct o_blks o_end o_metas o_mend
+  | CRetry bs encs flen fsum oks wpanic o_ct o_blks o_end =>
+      retry_verdict bs encs flen fsum oks wpanic o_ct o_blks o_end
   | CFault ct ms flen fsum orig clean fs => faults_verdict ct ms flen fsum orig clean fs
   | CName num id parent lib suffix o_name o_tid o_tparent o_parsed panic =>
       name_verdict num id parent lib suffix o_name o_tid o_tparent o_parsed panic
